@@ -35,7 +35,9 @@ enum Traj {
     /// one load at T0 with a subset of roles expired
     LoadOnly,
     /// load at T0 (nothing expired), then read/save before or after the earliest expiry
-    LoadThenTarget { after: bool, save: bool, which_earliest: usize },
+    /// (`reload`: the second operation is another update cycle on the same datastore, against the
+    /// same, unchanged repository, instead of a target operation)
+    LoadThenTarget { after: bool, save: bool, which_earliest: usize, reload: bool },
     /// nothing expired; sequence of operations with the clock moving backwards before the last one
     Backward { ops: Vec<Op>, forward_first: bool, delta: usize },
 }
@@ -73,6 +75,7 @@ fn gen_case(seed: u64, i: u64) -> Case {
                 after: r.bool(),
                 save: r.bool(),
                 which_earliest: r.usize(4),
+                reload: r.chance(1, 3),
             },
         )
     } else {
@@ -278,7 +281,7 @@ fn run_case(w: &mut Worker, c: &Case) -> CaseOut {
                 }
             }
         }
-        Traj::LoadThenTarget { after, save, which_earliest } => {
+        Traj::LoadThenTarget { after, save, which_earliest, reload } => {
             let repo = load_at(w, t0, &mut observed);
             out.evals += 1;
             let Some(repo) = repo else {
@@ -302,10 +305,14 @@ fn run_case(w: &mut Worker, c: &Case) -> CaseOut {
             } else {
                 t0 + (earliest - t0) / 2
             };
-            target_at(w, &repo, *save, t1, &mut observed);
+            if *reload {
+                let _ = load_at(w, t1, &mut observed);
+            } else {
+                target_at(w, &repo, *save, t1, &mut observed);
+            }
             out.evals += 1;
             let o = &observed[1];
-            let op = opname(o.op);
+            let op = if *reload { "second-load-same-datastore" } else { opname(o.op) };
             if o.class == "Watchdog" {
                 out.inconc("watchdog");
             } else if *after && enforcing {
@@ -316,6 +323,8 @@ fn run_case(w: &mut Worker, c: &Case) -> CaseOut {
                     );
                 } else if o.class != "ExpiredMetadata" {
                     out.broken = Some(format!("expected expiry error from {op}, got {}: {}", o.class, o.text));
+                } else if *reload && (0..4).any(|k| exp[k] < t1 && o.text.starts_with(ROLES[k])) {
+                    // an update cycle may name any role that is expired at that time
                 } else if !o.text.starts_with(ROLES[*which_earliest]) {
                     out.viol(
                         format!("unexpired-role-reported-expired:op={op}"),
@@ -467,6 +476,7 @@ pub fn run(cfg: &Cfg) -> i32 {
         required.push(format!("traj=load-then-read_target:after-expiry:earliest={r}"));
         required.push(format!("traj=load-then-save_target:after-expiry:earliest={r}"));
         required.push(format!("traj=load-then-read_target:before-expiry:earliest={r}"));
+        required.push(format!("traj=load-then-second-load-same-datastore:after-expiry:earliest={r}"));
         for m in MARGINS {
             required.push(format!("expired={r}:margin={}", m.1));
         }
